@@ -22,3 +22,51 @@ Definition ex_block : list Z :=
     0; 0; 0; 0; 0; 0; 0; 0;     0; 0; 0; 0; 0; 0; 0; 1 ].
 Definition ex_block2 : list Z := 12 :: repeat 0 63.
 Definition ex_block3 : list Z := -1024 :: 1 :: repeat 0 61 ++ [-2].
+
+From LJT Require Import model.Prog.
+Fixpoint list_eqb {A} (eqb : A -> A -> bool) (l1 l2 : list A) : bool :=
+  match l1, l2 with
+  | [], [] => true
+  | a :: t1, b :: t2 => eqb a b && list_eqb eqb t1 t2
+  | _, _ => false
+  end.
+
+(* n all-zero blocks, one nonzero block, 3 all-zero blocks through an AC-first scan (Ss=1, Se=63, Al=0) *)
+Definition eobrun_example_check (n : Z) : bool :=
+  let bl := repeat (repeat 0 64) (Z.to_nat n) ++ [ex_block] ++ repeat (repeat 0 64) 3 in
+  match acf_enc_scan fix8 10 1 63 0 0 bl with
+  | Some bytes =>
+      match acf_dec_scan fix8 1 63 0 0 (repeat (repeat 0 64) (Z.to_nat (n + 4))) bytes with
+      | Some out => list_eqb (list_eqb Z.eqb) out (map (fun b => 0 :: skipn 1 b) bl) && (length bytes <? 40)%nat
+      | None => false
+      end
+  | None => false
+  end.
+
+(* AC refinement, one restart interval: ZRL before a newly-nonzero coefficient, correction bits
+   buffered behind a symbol, an EOB run over several blocks carrying correction bits (BE), a
+   coefficient at position 63 behind 3 ZRLs *)
+From LJT Require Import proofs.NatOrderProofs proofs.ProgProofs.
+Definition mkblock (l : list (Z * Z)) : list Z :=
+  fold_left (fun blk kv => upd (order (Z.to_nat (fst kv))) (snd kv) blk) l (repeat 0 64).
+Definition acr_ex_blocks : list (list Z) :=
+  [ mkblock [(0, 100); (1, 7); (20, 2); (21, -5); (40, -3); (50, 9)];
+    mkblock [(0, -8); (3, 1)];
+    mkblock [(5, 6); (6, -7); (30, 1)];
+    mkblock [(0, 3)];
+    mkblock [(2, 12); (63, 2)];
+    mkblock [(1, -2); (2, 3); (3, 13)];
+    mkblock [(10, 5)] ].
+Definition acr_example_check (Ss Se : nat) (Al : Z) : bool :=
+  let bl := acr_ex_blocks in
+  let cur := map (fun b => acr_expected Ss Se (Al + 1) b (repeat 0 64)) bl in
+  match enc_acr_blocks fix8 Ss Se Al bl 0 [] with
+  | Some bits =>
+      match dec_acr_blocks fix8 Ss Se Al cur 0 (bits ++ [true; false]) with
+      | Some (out, rest) =>
+          list_eqb (list_eqb Z.eqb) out (map (fun bc => acr_expected Ss Se Al (fst bc) (snd bc)) (combine bl cur))
+          && list_eqb Bool.eqb rest [true; false] && (40 <? length bits)%nat
+      | None => false
+      end
+  | None => false
+  end.
